@@ -229,7 +229,10 @@ impl GroupEncoding for K256 {
 
     fn from_bytes(bytes: &Self::Repr) -> CtOption<Self> {
         let compressed = k256::CompressedPoint::from(bytes.0);
-        <ProjectivePoint as K256GroupEncoding>::from_bytes(&compressed).map(Self)
+        // Only the canonical encoding of a point is accepted.
+        <ProjectivePoint as K256GroupEncoding>::from_bytes(&compressed)
+            .map(Self)
+            .and_then(|p| CtOption::new(p, Choice::from((p.to_bytes().0 == bytes.0) as u8)))
     }
 
     fn from_bytes_unchecked(bytes: &Self::Repr) -> CtOption<Self> {
@@ -247,7 +250,10 @@ impl GroupEncoding for K256Affine {
 
     fn from_bytes(bytes: &Self::Repr) -> CtOption<Self> {
         let compressed = k256::CompressedPoint::from(bytes.0);
-        <AffinePoint as K256GroupEncoding>::from_bytes(&compressed).map(Self)
+        // Only the canonical encoding of a point is accepted.
+        <AffinePoint as K256GroupEncoding>::from_bytes(&compressed)
+            .map(Self)
+            .and_then(|p| CtOption::new(p, Choice::from((p.to_bytes().0 == bytes.0) as u8)))
     }
 
     fn from_bytes_unchecked(bytes: &Self::Repr) -> CtOption<Self> {
